@@ -78,6 +78,13 @@ pub fn leaf_edits(v: &Value, r: &mut Rng) -> Vec<(String, Value)> {
                 if s.contains('"') {
                     variants.push(Value::String(s.replace('"', "\\\"")));
                 }
+                // a leap second against the second before it
+                if s.contains(":60") {
+                    variants.push(Value::String(s.replace(":60", ":59")));
+                }
+                if s.ends_with(":59Z") {
+                    variants.push(Value::String(format!("{}:60Z", &s[..s.len() - 4])));
+                }
                 // expiry: one second later / earlier
                 if let Ok(t) = chrono::DateTime::parse_from_rfc3339(s) {
                     for d in [1i64, -1] {
@@ -204,6 +211,12 @@ fn case(sink: &mut Sink, model: &mut Model, r: &mut Rng, pool: &[KeyInfo], meta:
         Err(_) => return,
     };
     let sig0 = signed.signatures[0].value().as_bytes().to_vec();
+    // the genuine block is verified first, as a consumer would have done before meeting an edited copy
+    {
+        let (g, k1, k2) = (signed.clone(), key.public().clone(), other.public().clone());
+        let ok = guarded(move || g.verify(2, [&k1, &k2]).is_ok());
+        sink.oracle(ok == Ok(true) || key.public().key_id() == other.public().key_id(), "metadata signed by the library does not verify", &format!("signed {}", proto(&j, &mut None)));
+    }
     let edits = leaf_edits(&j, r);
     // a random sample of the catalogue (every kind of edit at every kind of leaf over the run)
     let mut edits = edits;
